@@ -1,4 +1,5 @@
 import Driver.Wire
+import RdestModel.Swarm.Init
 import RdestModel.Swarm.Preds
 import RdestModel.Sha1
 namespace Driver
@@ -201,6 +202,21 @@ def handVerdict (prop : String) (args res : List String) : Verdict :=
       if !tilingOk Rdest.Gen.PIECE_BLOCK_SIZE len blocks then vProp "T1-blocks-do-not-tile-the-piece" tag
       else if blocks ≠ model then vDiff "left" (toString model) tag
       else vOk tag
+  | ["minit", sts], [out] =>
+    -- the bitfield the manager computes at Init (Peer::handle_init) vs `initBitfield`
+    let stl : List Status := if sts = "-" then [] else (sts.splitOn ",").map fun t =>
+      if t = "h" then Status.have else if t = "m" then Status.missing else Status.reserved ((t.drop 1).toString.toNat?.getD 1)
+    let model := toHex (initBitfield stl)
+    let tag := "minit-" ++ (if stl.any (fun x => match x with | .reserved _ => true | _ => false) then "with-reserved" else "plain")
+    if out = "P" then vProp "manager-panics-on-init" tag else
+    (match parseHex out with
+     | none => vBad out
+     | some bytes =>
+       -- oracle: bit i set exactly for owned pieces, spare bits zero
+       if (List.range (bytes.length * 8)).any (fun i => specBit bytes i ≠ decide (stl[i]? = some Status.have)) ∨
+          bytes.length ≠ (stl.length + 7) / 8 then vProp "T1-init-bitfield-does-not-mark-exactly-the-owned-pieces" tag
+       else if out ≠ model then vDiff "minit" model tag
+       else vOk tag)
   | ["mreq", sts, flags, idxS], [out] =>
     -- the manager's answer to RecvRequest (Peer::handle_request) vs `managerAnswersLoad`
     match idxS.toNat? with
